@@ -940,7 +940,8 @@ def may_reach(repo: Repo, site_fn: Func, call: ast.Call, names: Set[str], limit:
     return False
 
 
-def rule_state_lineage(ctx: Ctx, clause: str, funcs: Iterable[Func], rule="DU.state-lineage", relevant: Callable[[Func, ast.Call], bool] = None):
+def rule_state_lineage(ctx: Ctx, clause: str, funcs: Iterable[Func], rule="DU.state-lineage", relevant: Callable[[Func, ast.Call], bool] = None,
+                       tolerate_rollback: bool = False):
     """On every non-failing return path: each state-producing call that ran and whose success was established must lie
     on the lineage of the returned state. A result committed to an OLDER state silently discards what the newer one
     contained (the un-assignment done by an exit, a payment, a released plug)."""
@@ -961,6 +962,12 @@ def rule_state_lineage(ctx: Ctx, clause: str, funcs: Iterable[Func], rule="DU.st
             lin = {ast.dump(c) for c in state_lineage(p.value, producers)}
             if not lin and not isinstance(p.value, (ast.Call, ast.Tuple, ast.Subscript)):
                 continue
+            if tolerate_rollback:
+                # the function hands back exactly the state it was given: everything it did is undone together — a resource taken and a
+                # resource given back in the dropped state cancel out (whether dropping the step is right is another property's question)
+                slot = p.value.elts[1] if isinstance(p.value, ast.Tuple) and len(p.value.elts) == 2 else p.value
+                if isinstance(slot, ast.Name) and slot.id in fn.params:
+                    continue
             if not any((not e.deferred) and e.name in producers for e in p.events):
                 continue
             facts = p.facts()
